@@ -100,6 +100,23 @@ class Submodule(Module):
                     child.file_ast.scope_list[i] = child
             return child
 
+        # Forget what an earlier pass took over from the ancestor: the ancestor
+        # may have changed or be gone since
+        for i, child in enumerate(self.children):
+            placeholder = getattr(child, "placeholder", None)
+            if placeholder is not None:
+                self.children[i] = replace_child_in_scope_list(placeholder, child)
+                continue
+            own_interface = getattr(child, "own_interface", None)
+            if own_interface is not None:
+                (
+                    child.args,
+                    child.args_snip,
+                    child.arg_objs,
+                    child.in_children,
+                ) = own_interface
+                child.own_interface = None
+
         # Link subroutine/function implementations to prototypes
         if self.ancestor_obj is None:
             return
@@ -115,12 +132,20 @@ class Submodule(Module):
                     child_old = child
                     child = create_child_from_prototype(child_old, interface)
                     child.copy_from(child_old)
+                    child.placeholder = child_old
                     self.children[i] = child
                     child = replace_child_in_scope_list(child, child_old)
 
                 if child.get_type() == interface.get_type():
                     interface.link_obj = child
                     interface.resolve_link(obj_tree)
+                    if getattr(child, "placeholder", None) is None:
+                        child.own_interface = (
+                            child.args,
+                            child.args_snip,
+                            child.arg_objs,
+                            child.in_children,
+                        )
                     child.copy_interface(interface)
                     break
 
